@@ -4,4 +4,6 @@ func registerMore() {
 	commands["holdem-explore"] = cmdHoldemExplore
 	commands["holdem-sweep"] = cmdHoldemSweep
 	commands["holdem-start"] = cmdHoldemStart
+	commands["pots-enum"] = cmdPotsEnum
+	commands["pots-one"] = cmdPotsOne
 }
